@@ -70,7 +70,11 @@ def one_schema(sh, fa, rng, js, feats):
             return ("generate-raised", "generate_one raised %s under random.seed(%d)" % (exc_name(one), k + 1), dict(info, seed=k + 1, n=1))
         sh.case(h64(schema_shape(js), k, n), not isinstance(js, str))
         for v in vals[:6] + [one]:
-            if not (RC.conforms(node, v) or RC.conforms(node, v, loose=True)):
+            try:
+                fits = RC.conforms(node, v) or RC.conforms(node, v, loose=True)
+            except RecursionError:
+                return ("generate-raised", "the generated value nests deeper than the interpreter's recursion limit (RecursionError while walking it)", dict(info, seed=k, n=n))
+            if not fits:
                 return ("value-does-not-conform", "generated %s does not conform to the schema" % printable(v, 250), dict(info, seed=k, n=n, value=v))
             st, ok = guard(fa.validate, v, arg, raise_errors=False)
             if st == "exc" or ok is not True:
